@@ -18,13 +18,20 @@ func newResponses(i *catalog.HTTPInteraction) (*Responses, Error) {
 	}
 
 	sortedResponses := make(map[responseCode][]*catalog.HTTPResponse)
+	// The codes in the order in which they are first written: when more than one of them cannot be exported, the error
+	// of the first one is reported (ranging over the map reported a different one from call to call).
+	codes := make([]responseCode, 0, len(i.Responses))
 	for idx, resp := range i.Responses {
 		rCode := responseCode(resp.Code)
+		if _, ok := sortedResponses[rCode]; !ok {
+			codes = append(codes, rCode)
+		}
 		sortedResponses[rCode] = append(sortedResponses[rCode], &i.Responses[idx])
 	}
 
 	r := make(Responses, 1)
-	for rc, respArr := range sortedResponses {
+	for _, rc := range codes {
+		respArr := sortedResponses[rc]
 		var err Error
 		var resp *ResponseObject
 
